@@ -71,8 +71,8 @@ import (
 )
 
 const (
-	c09Key     = "c09a45edf5d245834089a1bd6cc9ad01" // classic key: the sampler is chosen by dataset, no environment lookup
-	c09Guard   = 60 * time.Second                   // failure guard on channel receives, never waited for in a passing run
+	c09Key   = "c09a45edf5d245834089a1bd6cc9ad01" // classic key: the sampler is chosen by dataset, no environment lookup
+	c09Guard = 60 * time.Second                   // failure guard on channel receives, never waited for in a passing run
 )
 
 // the trace id every path carries: 16 bytes in OTLP, their hex text elsewhere
@@ -273,7 +273,7 @@ func (c *c09Collector) ProcessSpanImmediately(*types.Span) (bool, bool) { return
 // c09Elsewhere is a sharder for which every trace belongs to the peer.
 type c09Elsewhere struct{ self, peer *sharder.TestShard }
 
-func (s *c09Elsewhere) MyShard() sharder.Shard            { return s.self }
+func (s *c09Elsewhere) MyShard() sharder.Shard          { return s.self }
 func (s *c09Elsewhere) WhichShard(string) sharder.Shard { return s.peer }
 
 type c09Env struct {
